@@ -301,7 +301,11 @@ class WorkerComms:
         Waits until the progress bar is completed
         """
         if self._progress_bar_complete is not None:
-            self._progress_bar_complete.wait()
+            # The progress bar will never be completed once an exception has been thrown (e.g., by the worker_exit
+            # function of another worker), so we shouldn't wait for it in that case
+            while not self._progress_bar_complete.wait(timeout=0.1):
+                if self.exception_thrown():
+                    return
 
     ################
     # Order modifiers
